@@ -1,6 +1,7 @@
 import GramModel.Generated.ParserShape
 import GramModel.Parser
 import GramModel.Lemmas.Parser
+import GramModel.Lemmas.ParserTermination
 
 /-!
 # C17 — parsing time does not blow up with nesting or length
@@ -41,10 +42,13 @@ second call with the same key is a hit and runs nothing (pending: lifted to the 
 def C17_memo_misses_le_stmt : Prop :=
   ∀ (toks : Array PModel.PTok) (r : PModel.PResult) (st' : PModel.PState),
     PModel.runParser toks = some (r, st') → (st'.misses.foldl (· + ·) 0) ≤ 36 * (toks.size + 1)
+theorem C17_memo_misses_le : C17_memo_misses_le_stmt := by
+  intro toks r st' h
+  exact PModel.runParser_misses_le toks r st' h
 
-/-! `C17_memo_misses_le_stmt` stays pending (its hypothesis `st = st'` is vacuous bookkeeping and
-the global bound needs a position invariant that is not proved).  What the doc comment above
-describes — the behaviour of one memoised call — is stated and proved precisely here. -/
+/-! `C17_memo_misses_le` is proved in `Lemmas/ParserTermination.lean` (`runParser_misses_le`): every
+miss inserts a fresh key `(nt, start)` with `start ≤ n`, so the misses are bounded by the number of
+possible keys.  The behaviour of one memoised call is stated and proved precisely here. -/
 
 open PModel in
 /-- **One memoised call.**  In `cacheCheck nt start body st`:
